@@ -150,3 +150,32 @@ def same_blocks(bl1, bl2):
     if len(bl1) != len(bl2):
         return False
     return AND(*[AND(a[0] == b[0], a[1] == b[1]) for a, b in zip(bl1, bl2)]) if bl1 else True
+
+
+# ---------------------------------------------------------------- parents (hand-built mirrors of io.parser.seq_to_parent /
+# seq_chunk_to_parent, so that harnesses do not depend on the importability of io.models; C04 exercises the real ones)
+GENOME40 = "ATGAAACCCGGGTTTTAGATCGATTACGCTAGGCATCGAT"  # 40 nt
+
+
+def chrom_parent(seq=GENOME40, name="chr1"):
+    from inscripta.biocantor.parent import Parent, SequenceType
+    from inscripta.biocantor.sequence import Alphabet, Sequence
+
+    return Parent(sequence=Sequence(seq, Alphabet.NT_STRICT, type=SequenceType.CHROMOSOME, id=name),
+                  location=SingleInterval(0, len(seq), Strand.PLUS))
+
+
+def chunk_parent(w, L, seq=None, name="chr1"):
+    """sequence chunk [w, w+L) of chromosome `name`; w may be symbolic, L and the chunk's sequence are concrete"""
+    from inscripta.biocantor.parent import Parent, SequenceType
+    from inscripta.biocantor.sequence import Alphabet, Sequence
+
+    if seq is None:
+        seq = (GENOME40 * (L // 40 + 1))[:L]
+    assert len(seq) == L
+    chunk_id = name + ":chunk"
+    return Parent(
+        id=chunk_id,
+        sequence=Sequence(seq, Alphabet.NT_STRICT, id=chunk_id, type=SequenceType.SEQUENCE_CHUNK,
+                          parent=Parent(location=SingleInterval(w, w + L, Strand.PLUS,
+                                                                parent=Parent(id=name, sequence_type=SequenceType.CHROMOSOME)))))
